@@ -5,6 +5,17 @@ use crate::{
 };
 use sauron::{html::*, svg, svg::attributes::*, Node};
 use std::{borrow::Cow, cmp::Ordering, fmt};
+use unicode_width::UnicodeWidthChar;
+
+/// the number of buffer columns a text occupies: a double-width character takes two, every
+/// other character (also a zero-width one) sits in a cell of its own, and the NUL fillers
+/// that follow a wide character in a quoted string are not characters of the text
+fn columns(text: &str) -> usize {
+    text.chars()
+        .filter(|ch| *ch != '\0')
+        .map(|ch| ch.width().unwrap_or(1).max(1))
+        .sum()
+}
 
 /// A horizontal cell text
 /// Operated based on cell
@@ -23,14 +34,19 @@ impl CellText {
         CellText { start, content }
     }
 
+    /// number of cells this text covers (not its length in bytes)
+    fn width(&self) -> i32 {
+        columns(&self.content) as i32
+    }
+
     fn end_cell(&self) -> Cell {
-        Cell::new(self.start.x + self.content.len() as i32, self.start.y)
+        Cell::new(self.start.x + self.width(), self.start.y)
     }
 
     /// get the cells of this text
     /// TODO: use iterator
     fn cells(&'_ self) -> impl IntoIterator<Item = Cell> + '_ {
-        let range = self.start.x..(self.start.x + self.content.len() as i32);
+        let range = self.start.x..(self.start.x + self.width());
         range.map(move |x| Cell::new(x, self.start.y))
     }
 
@@ -50,8 +66,8 @@ impl CellText {
     /// text can merge if they are next to each other and at the same line
     pub(crate) fn can_merge(&self, other: &Self) -> bool {
         self.start.y == other.start.y
-            && (self.start.x + self.content.len() as i32 == other.start.x
-                || other.start.x + other.content.len() as i32 == self.start.x)
+            && (self.start.x + self.width() == other.start.x
+                || other.start.x + other.width() == self.start.x)
     }
 
     pub(crate) fn merge(&self, other: &Self) -> Option<Self> {
@@ -135,7 +151,7 @@ impl Text {
 
     /// get the textwidth in terms of cell grid points
     fn text_width(&self) -> f32 {
-        self.text.len() as f32 * CellGrid::width()
+        columns(&self.text) as f32 * CellGrid::width()
     }
 
     pub(crate) fn absolute_position(&self, cell: Cell) -> Self {
